@@ -35,7 +35,9 @@ func main() {
 			hx.Fatalf("gen: -dir required")
 		}
 		if err := hx.RunFactGens(*repo, *dir); err != nil {
-			hx.Fatalf("gen: %v", err)
+			// individual failures were printed ("fact generator X failed"); the caller
+			// substitutes baseline copies and reports the broken tie
+			fmt.Fprintf(os.Stderr, "harness: gen: %v\n", err)
 		}
 	case "run":
 		if len(os.Args) < 3 {
